@@ -13,8 +13,102 @@ def guard(f):
     except Exception as e:
         return {"raise": type(e).__name__}
 
+def key_source(keys, spec):
+    """the KEY argument of a tonal pattern: one key object, or a PSequence of key objects (a progression)"""
+    pick = (lambda sl: keys[sl].scale) if spec.get("as_scale") else (lambda sl: keys[sl])
+    if "const" in spec:
+        return pick(spec["const"])
+    return iso.PSequence([pick(sl) for sl in spec["seq"]], spec["repeats"])
+
+def pull(p, n, split):
+    """nextn(n), or the same n values asked for in two calls on the same pattern object"""
+    if split is None:
+        return list(p.nextn(n))
+    return list(p.nextn(split)) + list(p.nextn(n - split))
+
+def run_session(sess):
+    """one process history: scales and keys are built, re-configured and queried in the order given.
+    Nothing is reset between the operations (that is the point); results are aligned with the operations."""
+    saved = dict(Scale.dict)
+    scales, keys, out = {}, {}, []
+    for op in sess["ops"]:
+        kind = op["op"]
+        def do():
+            if kind == "scale":
+                how = op["how"]
+                if how == "builtin":
+                    scales[op["id"]] = Scale.byname(op["name"])
+                elif how == "unnamed":        # the library's default name: every such scale is called the same
+                    if op["osize"] == 12:
+                        scales[op["id"]] = Scale(list(op["semis"]))
+                    else:
+                        scales[op["id"]] = Scale(list(op["semis"]), octave_size=op["osize"])
+                else:
+                    scales[op["id"]] = Scale(list(op["semis"]), op["name"], octave_size=op["osize"])
+                return None
+            if kind == "key":
+                keys[op["slot"]] = Key(op["tonic"], scales[op["scale"]])
+                return None
+            if kind == "retune":
+                keys[op["slot"]].tonic = op["tonic"]
+                return None
+            if kind == "rescale":
+                keys[op["slot"]].scale = scales[op["scale"]]
+                return None
+            fn, xs = op["fn"], op.get("xs", [])
+            if fn in ("pfilter", "psnap", "pdegree", "chain"):
+                mel = iso.PSequence(list(xs), 1)
+                if fn == "pfilter":
+                    p = iso.PFilterByKey(mel, key_source(keys, op["keys"]))
+                elif fn == "psnap":
+                    p = iso.PNearestNoteInKey(mel, key_source(keys, op["keys"]))
+                elif fn == "pdegree":
+                    p = iso.PDegree(mel, key_source(keys, op["keys"]))
+                else:
+                    p = iso.PNearestNoteInKey(iso.PFilterByKey(mel, key_source(keys, op["keys"])), key_source(keys, op["keys2"]))
+                return pull(p, op["n"], op.get("split"))
+            key = keys[op["slot"]]
+            if fn == "get":
+                return [guard(lambda: key.get(d)) for d in xs]
+            if fn == "getitem":
+                return [guard(lambda: key[d]) for d in xs]
+            if fn == "contains":
+                return [guard(lambda: (x in key)) for x in xs]
+            if fn == "nearest":
+                return [guard(lambda: key.nearest_note(x)) for x in xs]
+            if fn == "semitones":
+                return list(key.semitones)
+            raise ValueError("unknown query " + fn)
+        out.append(guard(do))
+    Scale.dict.clear(); Scale.dict.update(saved)
+    return out
+
 def main():
     req = json.load(sys.stdin)
+    if "sessions" in req:
+        # every session runs in a forked child of this freshly imported interpreter: it starts from the state
+        # right after `import isobar` (no key or scale of another session has ever existed in its process)
+        import os
+        res = []
+        for sess in req["sessions"]:
+            rfd, wfd = os.pipe()
+            pid = os.fork()
+            if pid == 0:
+                os.close(rfd)
+                try:
+                    data = json.dumps(run_session(sess))
+                except BaseException as e:
+                    data = json.dumps({"driver-error": type(e).__name__})
+                with os.fdopen(wfd, "w") as f:
+                    f.write(data)
+                os._exit(0)
+            os.close(wfd)
+            with os.fdopen(rfd) as f:
+                data = f.read()
+            os.waitpid(pid, 0)
+            res.append(json.loads(data))
+        json.dump({"sessions": res}, sys.stdout)
+        return
     if req.get("list"):
         json.dump({"scales": [[n, list(s.semitones), s.octave_size] for n, s in Scale.dict.items()],
                    "note_names": util.note_names}, sys.stdout)
